@@ -8,6 +8,7 @@ import D2P.Check.C01
 import D2P.Check.C13
 import D2P.Check.Merge
 import D2P.Check.C16
+import D2P.Check.C13Src
 import D2P.Model.Replace
 import D2P.Model.Save
 /-!
@@ -341,6 +342,7 @@ def handleValid (j : Json) : Except String Json := do
     pure (Json.mkObj ((cs.map fun r => (String.ofList r.path, jM (fun cr => toJson (validT cr.2)) (rootElement o a files r))) ++
       [("<package>", toJson (validPkg o a)), ("<comments>", toJson (commentsOK a)),
        -- hypotheses of `C13_merge_total` on the SOURCE trees: every content part is `validT` and passes `goodTree` and `sameWb`
+       ("<srcpackage>", toJson (validSrcPkg a)),
        ("<sources>", toJson (cs.all fun r => match a.readXml r.path with | .ok root => validT root && goodTree root && sameWb root | .error _ => true))]))
 
 def handle (line : String) : Json :=
